@@ -11,7 +11,7 @@ pub fn def() -> PropDef {
     PropDef {
         id: "C04",
         builds: BOTH,
-        rule: "T: every text over a 19-symbol adversarial menu (and deeper over an 8-symbol core) x every public text function x widths {0,1,2,3,len,MAX-1,MAX} x all built-in option combinations x 3 indent pairs (wrap_columns: 1..3 columns, total widths 0..9, 4 gap triples); F: every fragment sequence over a 220-fragment menu with NaN/inf/negative/huge values x 9 line-width lists x 3 penalty records (no panic), a usize-valued menu x 600 penalty records (optimal-fit must return Ok), and 600 penalty records driven through wrap; each call runs under catch_unwind and a hang watchdog; non-trivial = a text containing ESC, a multi-byte character, CR or LF / a fragment sequence of length >= 2",
+        rule: "T: every text over a 19-symbol adversarial menu (deeper over an 8-symbol core for wrap/fill/wrap_columns, and deeper still for the cheap functions, also over a 10-symbol line-structure menu with CR, LF, two multi-byte characters sharing a lead byte, TAB) x every public text function x widths {0,1,2,3,len,MAX-1,MAX} x all built-in option combinations x 3 indent pairs (wrap_columns: 1..3 columns, total widths 0..9, 4 gap triples); F: every fragment sequence over a 220-fragment menu with NaN/inf/negative/huge values x 9 line-width lists x 3 penalty records (no panic), a usize-valued menu x 600 penalty records (optimal-fit must return Ok), and 600 penalty records driven through wrap; each call runs under catch_unwind and a hang watchdog; non-trivial = a text containing ESC, a multi-byte character, CR or LF / a fragment sequence of length >= 2",
         assumptions: BASE_ASSUMPTIONS,
         floor: |t| t.pick(10_000, 100_000),
         run,
@@ -44,12 +44,13 @@ macro_rules! total {
     }};
 }
 
-fn text_totality(r: &mut Run, name: &str, alpha: &[Sym], n: usize) -> Result<(), MachineryError> {
+/// wrap, fill and wrap_columns under every built-in option combination (the expensive calls)
+fn wrap_totality(r: &mut Run, name: &str, alpha: &[Sym], n: usize) -> Result<(), MachineryError> {
     let space = Space {
         name: name.into(),
         menu: menu(alpha),
         max_len: n,
-        desc: format!("texts of length <= {}: wrap, fill (widths 0,1,2,3,len,MAX-1,MAX x separators x algorithms x none/hyphen x break_words x 3 indent pairs x LF/CRLF), fill_inplace, unfill, refill, indent, dedent, display_width, find_words, split_words, break_words, Word::break_apart, wrap_columns (columns 1..3, widths 0..9, 4 gap triples, break_words on/off)", n),
+        desc: format!("texts of length <= {}: wrap, fill (widths 0,1,2,3,len,MAX-1,MAX x separators x algorithms x none/hyphen x break_words x 3 indent pairs x LF/CRLF), wrap_columns (columns 1..3, widths 0..9, 4 gap triples, break_words on/off)", n),
     };
     r.space(space, |seq, cx| {
         let text = build(seq, alpha);
@@ -63,6 +64,36 @@ fn text_totality(r: &mut Run, name: &str, alpha: &[Sym], n: usize) -> Result<(),
             total!(cx, "C04-wrap-returns", cfg.d(), wrap(&text, &o));
             total!(cx, "C04-fill-returns", cfg.d(), fill(&text, &o));
         }
+        for cols in 1..=3usize {
+            for total_w in 0..=9usize {
+                for (l, m, rr) in [("", "", ""), ("|", "|", "|"), ("\u{4f60}", " ", ""), ("", "--", ">")] {
+                    for bw in [true, false] {
+                        total!(cx, "C04-wrap_columns-returns", format!("columns={} total_width={} gaps=({:?},{:?},{:?}) break_words={}", cols, total_w, l, m, rr, bw), wrap_columns(&text, cols, Options::new(total_w).break_words(bw), l, m, rr));
+                    }
+                }
+            }
+        }
+        if cx.want_sample() && seq.len() >= 2 {
+            cx.sample(&|| json!({"text": text, "calls": "wrap, fill, wrap_columns; see space description"}));
+        }
+    })
+}
+
+/// the cheap public functions, explored deeper
+fn cheap_totality(r: &mut Run, name: &str, alpha: &[Sym], n: usize) -> Result<(), MachineryError> {
+    let space = Space {
+        name: name.into(),
+        menu: menu(alpha),
+        max_len: n,
+        desc: format!("texts of length <= {}: fill_inplace (widths 0,1,2,3,len,MAX-1,MAX), unfill, refill (widths 0,1,3,MAX x LF/CRLF), indent (4 prefixes), dedent, display_width, find_words (both separators), split_words (none, hyphen, custom), break_words and Word::break_apart (limits 0..3, MAX)", n),
+    };
+    r.space(space, |seq, cx| {
+        let text = build(seq, alpha);
+        cx.set_input(&text);
+        if text.contains('\x1b') || !text.is_ascii() || text.contains('\r') || text.contains('\n') {
+            cx.nontrivial();
+        }
+        let ws = [0usize, 1, 2, 3, text.len(), usize::MAX - 1, usize::MAX];
         for &w in &ws {
             total!(cx, "C04-fill_inplace-returns", format!("width={}", w), {
                 let mut s = text.clone();
@@ -96,17 +127,8 @@ fn text_totality(r: &mut Run, name: &str, alpha: &[Sym], n: usize) -> Result<(),
         for limit in [0usize, 1, 2, 3, usize::MAX] {
             total!(cx, "C04-break_apart-returns", format!("limit={}", limit), Word::from(&text).break_apart(limit).count());
         }
-        for cols in 1..=3usize {
-            for total_w in 0..=9usize {
-                for (l, m, rr) in [("", "", ""), ("|", "|", "|"), ("\u{4f60}", " ", ""), ("", "--", ">")] {
-                    for bw in [true, false] {
-                        total!(cx, "C04-wrap_columns-returns", format!("columns={} total_width={} gaps=({:?},{:?},{:?}) break_words={}", cols, total_w, l, m, rr, bw), wrap_columns(&text, cols, Options::new(total_w).break_words(bw), l, m, rr));
-                    }
-                }
-            }
-        }
         if cx.want_sample() && seq.len() >= 2 {
-            cx.sample(&|| json!({"text": text, "calls": "all public functions, see space description"}));
+            cx.sample(&|| json!({"text": text, "calls": "fill_inplace, unfill, refill, indent, dedent, display_width, find_words, split_words, break_words, break_apart"}));
         }
     })
 }
@@ -212,8 +234,11 @@ fn run(r: &mut Run) -> Result<(), MachineryError> {
     let t = r.tier;
     let adv = [L, SP, HY, NL, CR, W, CM, EM, ESC, LBR, RBR, BSL, BEL, LM, NB, ZW, SHY, HASH, TAB];
     let core = [L, SP, NL, CR, W, ESC, LBR, HASH];
-    text_totality(r, "C04/adversarial-19", &adv, t.pick(2, 4))?;
-    text_totality(r, "C04/core-8", &core, t.pick(4, 6))?;
+    let lines = [L, SP, NL, CR, W, E2, HASH, TAB, NB, SHY];
+    wrap_totality(r, "C04/wrap-adversarial-19", &adv, t.pick(2, 3))?;
+    wrap_totality(r, "C04/wrap-core-8", &core, t.pick(4, 5))?;
+    cheap_totality(r, "C04/cheap-adversarial-19", &adv, t.pick(4, 5))?;
+    cheap_totality(r, "C04/cheap-line-structure-10", &lines, t.pick(5, 7))?;
     nonfinite(r, t.pick(2, 3))?;
     #[cfg(feature = "full")]
     {
